@@ -348,18 +348,33 @@ def rule_value_to_int(ctx) -> None:
                    f"pattern {pat!r} (re.{mode}): string {diff[0]!r} is accepted by {diff[1].replace('first', 'the code').replace('second', 'the documented grammar')}" if diff else "",
                    "accept exactly: optional 0b/0o/0x, digits/hex/underscores, up to three u/l suffix letters", A.loc(MISC, call))
     ctx.chk.decide(stripped, "C20.value_to_int.strip", fn.qual, "subject is stripped before matching", f"subject is {subj_txt}", "value.strip()", A.loc(MISC, call))
-    # base table: each prefix alternative maps to its base
-    dicts = [n for n in A.walk_no_nested(fn.node) if isinstance(n, ast.Subscript) and isinstance(n.value, ast.Dict)]
-    if len(dicts) != 1:
-        raise AnalysisError("C20.value_to_int.base: expected one prefix->base table literal")
-    table = prog.fold(dicts[0].value, fn.module)
-    want = {"0b": 2, "0o": 8, "0x": 16, None: 10}
+    # base selection: for every prefix the pattern can capture (in every letter case the subject may still have) the right base is chosen
+    import re as _re0
+    sub = [n for n in A.walk_no_nested(fn.node) if isinstance(n, ast.Subscript) and isinstance(n.value, ast.Dict)]
+    get = [n for n in A.walk_no_nested(fn.node) if isinstance(n, ast.Call) and isinstance(n.func, ast.Attribute) and n.func.attr == "get" and isinstance(n.func.value, ast.Dict)]
+    if len(sub) + len(get) != 1:
+        raise AnalysisError("C20.value_to_int.base: expected one prefix->base table (dict[...] or dict.get(...))")
+    node = (sub + get)[0]
+    table = prog.fold(node.value if sub else node.func.value, fn.module)
     if not isinstance(table, dict):
         raise AnalysisError("C20.value_to_int.base: table does not fold")
-    got = {k: table.get(k, "<missing>") for k in want}
-    ctx.chk.decide(got == want, "C20.value_to_int.base", fn.qual, f"prefix table maps {got}", f"prefix table {table}", f"{want}", A.loc(MISC, dicts[0]))
-    idx = norm(dicts[0].slice)
-    ctx.chk.decide("prefix" in idx and "group" in idx, "C20.value_to_int.base-key", fn.qual, f"table is indexed by {idx}", f"table is indexed by {idx}", "match.group('prefix')", A.loc(MISC, dicts[0]))
+    key = node.slice if sub else (node.args[0] if node.args else None)
+    dflt = prog.fold(node.args[1], fn.module) if (get and len(node.args) > 1) else ("<KeyError>" if sub else None)
+    ci = bool((flags | _re0.compile(pat).flags) & _re0.IGNORECASE) if isinstance(flags, int) else False
+    prefixes = [None, "0b", "0o", "0x"]
+    if not lowered and (ci or any(c in pat for c in "BOX")):
+        prefixes += ["0B", "0O", "0X"]
+    want_base = {None: 10, "0b": 2, "0o": 8, "0x": 16}
+    probs = []
+    for pfx in prefixes:
+        got = table.get(pfx, dflt)
+        want = want_base[pfx.lower() if pfx else None]
+        if got != want:
+            probs.append(f"prefix {pfx!r} -> base {got} (expected {want})")
+    ctx.chk.decide(not probs, "C20.value_to_int.base", fn.qual, f"every capturable prefix {prefixes} selects its base ({'subject lowered' if lowered else 'case preserved'})",
+                   "; ".join(probs), "0b -> 2, 0o -> 8, 0x -> 16, none -> 10 in every accepted letter case", A.loc(MISC, node))
+    idx = norm(key) if key is not None else ""
+    ctx.chk.decide("prefix" in idx and "group" in idx, "C20.value_to_int.base-key", fn.qual, f"table is indexed by {idx}", f"table is indexed by {idx}", "match.group('prefix')", A.loc(MISC, node))
     # conversion int(number, base)
     ints = [c for c in A.calls_in(fn.node, "int") if len(c.args) + len(c.keywords) == 2]
     ok = False
